@@ -235,6 +235,7 @@ WFIter(it) ==
     [] OTHER -> FALSE
 WFStrat(s) ==
   CASE Op(s) = "via" -> WF(s[2])
+    [] Op(s) = "nesteddelim" -> WF(s[5])        \* <<"nesteddelim", start, end, others, derived>>: via_parser(nested_delimiters(..))
     [] Op(s) \in {"skipuntil", "retry"} -> WF(s[2]) /\ WF(s[3]) /\ ~CanEmpty(s[2])
 WF(g) ==
   LET o == Op(g) IN
@@ -275,6 +276,7 @@ HasOp(g, ops) ==
        [] o \in {"foldl", "foldr", "foldlw", "foldrw"} -> HasOp(g[2], ops) \/ HasOp(g[3], ops)
        [] o = "recover" -> HasOp(g[2], ops) \/ HasOp(g[3], ops)
        [] o \in {"via"} -> HasOp(g[2], ops)
+       [] o = "nesteddelim" -> HasOp(g[5], ops)
        [] o \in {"skipuntil", "retry"} -> HasOp(g[2], ops) \/ HasOp(g[3], ops)
        [] o \in {"withctx", "mapctx"} -> HasOp(g[3], ops)
        [] o = "pratt" -> HasOp(g[2], ops)
@@ -284,7 +286,7 @@ RECURSIVE SizeSeq(_)
 SizeSeq(s) == IF s = <<>> THEN 0 ELSE Size(Head(s)) + SizeSeq(Tail(s))
 Size(g) ==
   LET o == Op(g) IN
-  CASE o \in {"just", "any", "oneof", "noneof", "sel", "end", "empty", "cust", "probe", "cfgjust", "cfgjustr", "ref", "tree", "anyr", "selr", "newline", "text"} -> 1
+  CASE o \in {"just", "any", "oneof", "noneof", "sel", "end", "empty", "cust", "probe", "cfgjust", "cfgjustr", "ref", "tree", "anyr", "selr", "newline", "text", "nesteddelim"} -> 1
     [] o \in {"then", "ithen", "theni", "or", "andis", "thenctx", "ignctx", "nested", "padded", "sep", "foldl", "foldr", "foldlw", "foldrw", "recover", "skipuntil", "retry"} -> 1 + Size(g[2]) + Size(g[3])
     [] o = "delim" -> 1 + Size(g[2]) + Size(g[3]) + Size(g[4])
     [] o \in {"group", "grouparr", "choice", "choicev"} -> 1 + SizeSeq(g[2])
